@@ -244,6 +244,45 @@ pub async fn fair_phase(w: &mut World, assert_convergence: bool) {
         w.step_no += 1;
         w.advance(Duration::from_secs(1)).await;
         let ups = w.up_slots();
+        if sparse {
+            // exactly the real server's round, node by node in random order: own heartbeat, own tombstone GC, SYNs to
+            // at most k random peers, own liveness evaluation. A node's GC pass thus falls BETWEEN the handshakes other
+            // nodes have with it (a copy that is mid-way through a multi-datagram catch-up gets collected in between).
+            let k = 1 + (w.seed % 3) as usize;
+            let mut order = ups.clone();
+            order.shuffle(&mut w.rng);
+            for &a in &order {
+                w.beat(a);
+                w.gc(a);
+                let mut peers: Vec<usize> = ups.iter().cloned().filter(|b| *b != a).collect();
+                peers.shuffle(&mut w.rng);
+                peers.truncate(k);
+                for b in peers {
+                    monitored_handshake(w, a, b);
+                    if w.aborted {
+                        break;
+                    }
+                }
+                w.eval(a);
+                if w.aborted {
+                    break;
+                }
+            }
+            match converged(w) {
+                Ok(()) => break,
+                Err(why) => {
+                    if rounds >= bound {
+                        if assert_convergence {
+                            w.fail(&["C01"], "progress.not_converged", format!("after {rounds} fair server-like rounds (bound {bound}): {why}"));
+                        } else {
+                            w.stats.inc("c01_convergence_not_asserted_and_not_reached");
+                        }
+                        break;
+                    }
+                }
+            }
+            continue;
+        }
         for &s in &ups {
             w.beat(s);
             if with_gc {
@@ -259,16 +298,6 @@ pub async fn fair_phase(w: &mut World, assert_convergence: bool) {
             }
         }
         pairs.shuffle(&mut w.rng);
-        if sparse {
-            // like the real server: every node initiates with at most three random peers per round
-            let mut per: BTreeMap<usize, usize> = BTreeMap::new();
-            let k = 1 + (w.seed % 3) as usize;
-            pairs.retain(|(a, _)| {
-                let c = per.entry(*a).or_default();
-                *c += 1;
-                *c <= k
-            });
-        }
         for (a, b) in pairs {
             monitored_handshake(w, a, b);
             if w.aborted {
@@ -462,6 +491,32 @@ pub async fn witness_178_big(delta: i64) -> TraceResult {
     TraceResult { hash: w.trace_hash(), nontrivial: true, steps: w.step_no as u64, findings: std::mem::take(&mut w.findings), stats: std::mem::take(&mut w.stats), replay }
 }
 
+/// A late joiner must catch up, over several datagrams, with an owner whose LAST write was a deletion that it has
+/// collected (watermark == max version): the joiner's copy sits at (owner's watermark, max version below it) for
+/// several rounds, while every node — like the real server — runs its tombstone GC pass before each of its rounds.
+/// A GC pass that touches the frontier of such a copy (e.g. clamps the watermark to the max version) makes the owner
+/// restart the transfer from version 0 every round: the copy never gets past the first datagram.
+pub async fn witness_gc_between_catch_up_rounds(seed: u64) -> TraceResult {
+    let mut cfg = witness_cfg(2);
+    cfg.big_values = true;
+    let mut w = World::new(cfg, seed);
+    let (x, r) = (0usize, 1usize);
+    w.start(x);
+    let mut brng = rng_from(0x6C01);
+    // ten near-incompressible values of ~30 KB: five datagrams at least
+    for i in 0..10usize {
+        w.write(x, 0, &format!("big{i}"), &hi_entropy(&mut brng, 30_000 + i));
+    }
+    w.write(x, 0, "tmp", "tmp");
+    w.write(x, 2, "tmp", "");
+    w.advance(Duration::from_secs(31)).await;
+    w.gc(x); // owner: watermark == max version == 12
+    w.start(r); // the late joiner
+    fair_phase(&mut w, true).await;
+    let replay = w.replay_doc("E1-witness-gc-between-catch-up-rounds", seed);
+    TraceResult { hash: w.trace_hash(), nontrivial: true, steps: w.step_no as u64, findings: std::mem::take(&mut w.findings), stats: std::mem::take(&mut w.stats), replay }
+}
+
 /// C13: a live member's max version goes DOWN through a gossip reset (its latest writes were deletions that the
 /// owner collected while only its SYNs reached us): the live set / max versions changed, so a new value is due.
 pub async fn witness_watch_reset() -> TraceResult {
@@ -574,6 +629,7 @@ pub struct E1Run {
 
 /// Runs the E1 workload for `prop` and returns the findings relevant to it.
 pub fn run_e1(args: &Args, prop: &str, deadline: &Deadline) -> E1Run {
+    crate::sim::set_focus(prop);
     let plan = plan_for(prop);
     let miri = args.has("--miri");
     let n = if miri { 6 } else { args.n(plan.quick, plan.thorough) };
@@ -665,6 +721,7 @@ pub fn replay(args: &Args, path: &std::path::Path) -> i32 {
 
 pub fn check(args: &Args) -> Outcome {
     let prop = args.prop.clone();
+    crate::sim::set_focus(&prop);
     let plan = plan_for(&prop);
     let mut ev = Evidence::new(args, "exploration");
     let deadline = Deadline::new(args.tier.pick(240, 3000));
@@ -682,6 +739,10 @@ pub fn check(args: &Args) -> Outcome {
             wit.push(("issue178_big_state", rt.block_on(witness_178_big(d))));
         }
         wit.push(("watch_reset_lowers_max_version", rt.block_on(witness_watch_reset())));
+        // seed 6: server-like rounds (one peer per round); seed 9: all ordered pairs per round with a GC pass before
+        for sd in [6u64, 9] {
+            wit.push(("gc_between_catch_up_rounds", rt.block_on(witness_gc_between_catch_up_rounds(sd))));
+        }
     }
     let mut kf1_witness_reproduced = false;
     for (name, tr) in wit {
